@@ -28,7 +28,10 @@ LAYOUTS = [
 SOURCES = ['bugfix/TEST-12-fix', 'feature/TEST-7', 'improvement/test-33-low',
            'bugfix/no-ticket', 'feature/OTHER-5-foreign', 'project/TEST-1',
            'documentation/TEST-9', 'epic/TEST-2-epic', 'bugfix/TEST-',
-           'dependabot/npm/lodash-4.17', 'bug/TEST-44', 'design/RING-3']
+           'dependabot/npm/lodash-4.17', 'bug/TEST-44', 'design/RING-3',
+           # foreign projects whose key is a fragment of a configured one
+           'bugfix/TES-5-fragment', 'feature/T-1', 'bugfix/EST-8',
+           'improvement/RIN-2', 'bugfix/ING-6', 'feature/TEST_X-4']
 TYPES = ['Bug', 'Story', 'Improvement', 'Epic', 'Task']
 FAIL = ('MissingJiraId', 'JiraIssueNotFound', 'IncorrectJiraProject',
         'IssueTypeNotSupported', 'IncorrectFixVersion')
@@ -65,7 +68,12 @@ def gen(rng):
         if r < 0.55:
             key = rng.choice(['TEST-12', 'TEST-7', 'TEST-33', 'OTHER-5',
                               'TEST-1', 'TEST-9', 'TEST-2', 'TEST-44',
-                              'RING-3'])
+                              'RING-3', 'TES-5', 'T-1', 'EST-8', 'RIN-2',
+                              'ING-6', 'TEST_X-4'])
+            if rng.random() < 0.5:
+                m = re.match(r'^\w+/([a-zA-Z0-9_]+-[0-9]+)', cfg['src'])
+                if m:
+                    key = m.group(1).upper()
             n = rng.choice([0, 1, 1, 2, 2, 3, 4])
             ops.append({'op': 'issue', 'key': key,
                         'type': rng.choice(TYPES),
